@@ -615,5 +615,220 @@ theorem gear_relays_newest (ratio : F) (w : World F) (i1 i2 : Nat) (h12 : i1 ≠
             (fun r hr => by rw [hc1] at hr; cases Option.some.inj hr; show _ ≤ b.time; omega)
         · rw [hkeep i2 i1 (Ne.symm h12) hext2.1 hne, hc2]
 
+/-! ### D. axle -/
+
+/-- `maybe_datum.replace_if_none_or_older_than_option(read)` folded over a list of reads, starting from `m0` -/
+def newestFrom {α : Type} (m0 : Option (Datum α)) (reads : List (Option (Datum α))) : Option (Datum α) :=
+  reads.foldl (fun m r => (Datum.replaceIfNoneOrOlderThanOption m r).1) m0
+
+/-- the axle's choice: the fold from `None` -/
+def newestOf {α : Type} (reads : List (Option (Datum α))) : Option (Datum α) := newestFrom none reads
+
+theorem replaceOpt_step {α : Type} (m r : Option (Datum α)) :
+    (Datum.replaceIfNoneOrOlderThanOption m r).1 =
+      match m, r with
+      | m, none => m
+      | none, some c => some c
+      | some d, some c => if d.time ≥ c.time then some d else some c := by
+  cases m <;> cases r <;> simp only [Datum.replaceIfNoneOrOlderThanOption, Datum.replaceIfNoneOrOlderThan]
+  split <;> rfl
+
+/-- the fold yields nothing iff it started with nothing and every read is absent -/
+theorem newestFrom_none_iff {α : Type} (m0 : Option (Datum α)) (reads : List (Option (Datum α))) :
+    newestFrom m0 reads = none ↔ m0 = none ∧ ∀ r ∈ reads, r = none := by
+  induction reads generalizing m0 with
+  | nil => simp [newestFrom]
+  | cons r rs ih =>
+    have : newestFrom m0 (r :: rs) = newestFrom (Datum.replaceIfNoneOrOlderThanOption m0 r).1 rs := rfl
+    rw [this, ih, replaceOpt_step]
+    cases m0 <;> cases r <;> simp
+    split <;> simp
+
+/-- Characterisation of the fold's result `d`: either it is the starting value and no read is newer, or it is a
+read at some position, strictly newer than the start and than every read before it and at least as new as every read
+after it — i.e. the *first* read of maximal time. -/
+theorem newestFrom_some {α : Type} (m0 : Option (Datum α)) (reads : List (Option (Datum α))) (d : Datum α)
+    (h : newestFrom m0 reads = some d) :
+    (m0 = some d ∧ ∀ x, some x ∈ reads → x.time ≤ d.time) ∨
+    (∃ pre post, reads = pre ++ some d :: post ∧ (∀ x, m0 = some x → x.time < d.time) ∧
+      (∀ x, some x ∈ pre → x.time < d.time) ∧ (∀ x, some x ∈ post → x.time ≤ d.time)) := by
+  induction reads generalizing m0 with
+  | nil => left; exact ⟨h, fun x hx => absurd hx (by simp)⟩
+  | cons r rs ih =>
+    have hstep : newestFrom m0 (r :: rs) = newestFrom (Datum.replaceIfNoneOrOlderThanOption m0 r).1 rs := rfl
+    rw [hstep] at h
+    have hm := replaceOpt_step m0 r
+    rcases ih _ h with ⟨hm1, hall⟩ | ⟨pre, post, hrs, hlt0, hpre, hpost⟩
+    · -- the accumulator after `r` is already the result
+      rw [hm1] at hm
+      cases r with
+      | none =>
+        simp only [] at hm
+        left; refine ⟨hm.symm, fun x hx => ?_⟩
+        rcases List.mem_cons.1 hx with e | e
+        · exact absurd e (by simp)
+        · exact hall x e
+      | some c =>
+        cases m0 with
+        | none =>
+          simp only [] at hm
+          cases Option.some.inj hm
+          right; exact ⟨[], rs, rfl, fun x hx => absurd hx (by simp), fun x hx => absurd hx (by simp), hall⟩
+        | some e =>
+          simp only [] at hm
+          by_cases hec : e.time ≥ c.time
+          · rw [if_pos hec] at hm
+            cases Option.some.inj hm
+            left; refine ⟨rfl, fun x hx => ?_⟩
+            rcases List.mem_cons.1 hx with e' | e'
+            · cases Option.some.inj e'; exact hec
+            · exact hall x e'
+          · rw [if_neg hec] at hm
+            cases Option.some.inj hm
+            right
+            exact ⟨[], rs, rfl, fun x hx => by cases Option.some.inj hx; omega,
+              fun x hx => absurd hx (by simp), hall⟩
+    · -- the result comes later in the list: both `m0` and `r` are older than the accumulator after `r`
+      right
+      refine ⟨r :: pre, post, by rw [hrs]; rfl, fun x hx => ?_, fun x hx => ?_, hpost⟩
+      · subst hx
+        cases r with
+        | none => exact hlt0 x (by rw [hm])
+        | some c =>
+          simp only [] at hm
+          by_cases hec : x.time ≥ c.time
+          · rw [if_pos hec] at hm; exact hlt0 x hm
+          · rw [if_neg hec] at hm; have := hlt0 c hm; omega
+      · rcases List.mem_cons.1 hx with e | e
+        · subst e
+          cases m0 with
+          | none => exact hlt0 x (by rw [hm])
+          | some e0 =>
+            simp only [] at hm
+            by_cases hec : e0.time ≥ x.time
+            · rw [if_pos hec] at hm; have := hlt0 e0 hm; omega
+            · rw [if_neg hec] at hm; exact hlt0 x hm
+        · exact hpre x e
+
+/-- D (choice). The axle's fold over the reads of its terminals, for a list of ANY length: nothing iff every read
+is absent; otherwise one of the reads, unchanged, of maximal time, and the first such in list order. -/
+theorem newestOf_spec {α : Type} (reads : List (Option (Datum α))) :
+    (newestOf reads = none ↔ ∀ r ∈ reads, r = none) ∧
+    (∀ d, newestOf reads = some d →
+      ∃ pre post, reads = pre ++ some d :: post ∧
+        (∀ x, some x ∈ pre → x.time < d.time) ∧ (∀ x, some x ∈ post → x.time ≤ d.time)) := by
+  refine ⟨by simp [newestOf, newestFrom_none_iff], fun d h => ?_⟩
+  rcases newestFrom_some none reads d h with ⟨h0, _⟩ | ⟨pre, post, e, _, h1, h2⟩
+  · exact absurd h0 (by simp)
+  · exact ⟨pre, post, e, h1, h2⟩
+
+/-- the chosen datum is the most recently issued among the reads … -/
+theorem newestOf_max {α : Type} (reads : List (Option (Datum α))) (d : Datum α) (h : newestOf reads = some d) :
+    some d ∈ reads ∧ ∀ x, some x ∈ reads → x.time ≤ d.time := by
+  obtain ⟨pre, post, e, h1, h2⟩ := (newestOf_spec reads).2 d h
+  subst e
+  refine ⟨by simp, fun x hx => ?_⟩
+  rcases List.mem_append.1 hx with hx | hx
+  · have := h1 x hx; omega
+  · rcases List.mem_cons.1 hx with hx | hx
+    · cases Option.some.inj hx; exact Int.le_refl _
+    · exact h2 x hx
+
+/-- … and with distinct timestamps it is THE newest read: every other read is strictly older. -/
+theorem newestOf_unique_of_distinct {α : Type} (reads : List (Option (Datum α))) (d : Datum α)
+    (h : newestOf reads = some d)
+    (hdist : ∀ x y, some x ∈ reads → some y ∈ reads → x.time = y.time → x = y) :
+    ∀ x, some x ∈ reads → x ≠ d → x.time < d.time := by
+  intro x hx hne
+  obtain ⟨hd, hmax⟩ := newestOf_max reads d h
+  have := hmax x hx
+  have : x.time ≠ d.time := fun e => hne (hdist x d hx hd e)
+  omega
+
+theorem foldl_setCommand_slots (dc : Datum (Command F)) (is : List Nat) (w0 : World F) :
+    (∀ j, ((is.foldl (fun w' i => w'.setCommand i dc) w0).t j).other = (w0.t j).other) ∧
+    (∀ j, j ∈ is → ((is.foldl (fun w' i => w'.setCommand i dc) w0).t j).command = some dc) ∧
+    (∀ j, j ∉ is → ((is.foldl (fun w' i => w'.setCommand i dc) w0).t j).command = (w0.t j).command) := by
+  induction is generalizing w0 with
+  | nil => exact ⟨fun _ => rfl, fun j h => absurd h (by simp), fun _ _ => rfl⟩
+  | cons i is ih =>
+    obtain ⟨h1, h2, h3⟩ := ih (w0.setCommand i dc)
+    refine ⟨fun j => ?_, fun j hj => ?_, fun j hj => ?_⟩
+    · rw [List.foldl_cons, h1, setCommand_other]
+    · rw [List.foldl_cons]
+      by_cases hm : j ∈ is
+      · exact h2 j hm
+      · rw [h3 j hm]
+        have : j = i := by
+          rcases List.mem_cons.1 hj with e | e
+          · exact e
+          · exact absurd e hm
+        rw [this]; exact setCommand_command_self _ _ _
+    · rw [List.foldl_cons, h3 j (fun e => hj (List.mem_cons_of_mem _ e))]
+      exact setCommand_command_ne _ _ _ _ (fun e => hj (by rw [e]; exact List.mem_cons_self))
+
+/-- the code's fold over the terminals is `newestOf` of the list of reads taken before the update -/
+theorem axle_choice_eq (w : World F) (is : List Nat) :
+    is.foldl (fun (m : Option (Datum (Command F))) i =>
+      (Datum.replaceIfNoneOrOlderThanOption m ((axleStatePhase w is).getCommand i)).1) none =
+    newestOf (is.map w.getCommand) := by
+  simp only [newestOf, newestFrom, List.foldl_map, axle_state_phase_keeps_commands]
+
+/-- D (slots). For an axle over ANY list of terminals: with `m` the first newest of the commands read at its
+terminals before the update (`newestOf`), if `m` is absent no command slot changes, otherwise every terminal of the
+axle gets exactly that datum — value, kind and timestamp unchanged — in its own slot; other slots and all links are
+untouched. -/
+theorem axle_relays_newest_slots (w : World F) (is : List Nat) :
+    let w' := Axle.update w is
+    let m := newestOf (is.map w.getCommand)
+    (∀ j, (w'.t j).other = (w.t j).other) ∧
+    (∀ j, j ∉ is → (w'.t j).command = (w.t j).command) ∧
+    (m = none → ∀ j, (w'.t j).command = (w.t j).command) ∧
+    (∀ dc, m = some dc → ∀ j, j ∈ is → (w'.t j).command = some dc) := by
+  intro w' m
+  have hs := axle_state_phase_sameCmds w is
+  have hw' : w' = axleCmdPhase (axleStatePhase w is) is := rfl
+  simp only [axleCmdPhase, axle_choice_eq] at hw'
+  cases hm : m with
+  | none =>
+    have hm' : newestOf (is.map w.getCommand) = none := hm
+    rw [hm'] at hw'; simp only [] at hw'; rw [hw']
+    exact ⟨fun j => (hs j).2, fun j _ => (hs j).1, fun _ j => (hs j).1, fun dc h => absurd h (by simp)⟩
+  | some dc =>
+    have hm' : newestOf (is.map w.getCommand) = some dc := hm
+    rw [hm'] at hw'; simp only [] at hw'; rw [hw']
+    obtain ⟨h1, h2, h3⟩ := foldl_setCommand_slots dc is (axleStatePhase w is)
+    refine ⟨fun j => by rw [h1]; exact (hs j).2, fun j hj => by rw [h3 j hj]; exact (hs j).1,
+      fun h => absurd h (by simp), fun dc' h j hj => ?_⟩
+    cases Option.some.inj h; exact h2 j hj
+
+/-- D (reads). After `Axle::update`, reading the command at ANY terminal of the axle yields the first newest of the
+commands read at its terminals before the update — the issuer's datum itself: same timestamp, kind and value.
+Holds for every number of terminals, every wiring, and with ties (no distinctness is needed: all own slots hold the
+same datum and own slots win ties). -/
+theorem axle_relays_newest (w : World F) (is : List Nat) (i : Nat) (hi : i ∈ is) :
+    (Axle.update w is).getCommand i = newestOf (is.map w.getCommand) := by
+  obtain ⟨hoth, hne, hnone, hsome⟩ := axle_relays_newest_slots w is
+  cases hm : newestOf (is.map w.getCommand) with
+  | none =>
+    have hsame : SameCmds w (Axle.update w is) := fun j => ⟨hnone hm j, hoth j⟩
+    rw [hsame.getCommand]
+    exact (newestOf_spec _).1.1 hm _ (List.mem_map.2 ⟨i, hi, rfl⟩)
+  | some dc =>
+    have hmax := (newestOf_max _ dc hm).2
+    refine getCommand_eq_own _ _ _ (hsome dc hm i hi) (fun g hg => ?_)
+    simp only [World.partnerCommand, hoth i] at hg
+    cases hp : (w.t i).other with
+    | none => rw [hp] at hg; exact absurd hg (by simp)
+    | some p =>
+      rw [hp] at hg; simp only [] at hg
+      by_cases hpin : p ∈ is
+      · rw [hsome dc hm p hpin] at hg; cases Option.some.inj hg; exact Int.le_refl _
+      · rw [hne p hpin] at hg
+        have hpc : w.partnerCommand i = some g := by simp only [World.partnerCommand, hp]; exact hg
+        obtain ⟨r, hr, hgr⟩ := partner_le_read w i g hpc
+        have := hmax r (List.mem_map.2 ⟨i, hi, hr⟩)
+        omega
+
 end S
 end Rrtk.Thm.C13
